@@ -11,7 +11,7 @@ from dataclasses import dataclass, field
 from typing import List, Optional, Dict, Tuple
 
 SUB = {'ret', 'attr', 'spec', 'prologue', 'epilogue', 'loop', 'after', 'before', 'try', 'breakret', 'orsplit',
-       'shape', 'props', 'member', 'strmatch', 'forwhile', 'tailbind', 'sig', 'swap', 'note', 'selfret', 'tokens', 'vis', 'unwrap_tail', 'implicit', 'breakassign', 'closure', 'foriter', 'bindrecv', 'wrapcall'}
+       'shape', 'props', 'member', 'strmatch', 'forwhile', 'tailbind', 'sig', 'swap', 'note', 'selfret', 'tokens', 'vis', 'unwrap_tail', 'implicit', 'breakassign', 'closure', 'foriter', 'bindrecv', 'wrapcall', 'traitspec', 'constspec', 'mutself', 'norules', 'mutparam'}
 
 
 @dataclass
@@ -33,11 +33,23 @@ class VspecError(Exception):
     pass
 
 
-def parse(path: str) -> List[FileSpec]:
+def parse(path: str, unit: str = '') -> List[FileSpec]:
     files: List[FileSpec] = []
     cur_file: Optional[FileSpec] = None
     cur_item: Optional[Dir] = None
-    lines = open(path).read().split('\n')
+    lines = []
+    active = True
+    for raw in open(path).read().split('\n'):
+        st = raw.strip()
+        # conditional sections: `@begin U1 U2` ... `@end` are kept only when the unit being spliced is listed
+        if st.startswith('@begin '):
+            active = unit in st.split()[1:]
+            continue
+        if st == '@end':
+            active = True
+            continue
+        if active:
+            lines.append(raw)
     i = 0
     while i < len(lines):
         raw = lines[i]
